@@ -1153,10 +1153,13 @@ func rule092(r *core.Run) {
 		okAll := true
 		nRet := 0
 		for ret, ev := range returnedErrors(fn) {
-			nRet++
-			if core.IsNilConst(ev) {
-				okAll = false
-				r.Violated("R09.2", key(n, "return nil"), pos(r, ret), "a route arm returns nil without calling a handler: the client gets an empty 200")
+			// a single exit merges the arms' values: look at each alternative
+			for _, alt := range altValues(core.BlockLocalLoad(ev), 0) {
+				nRet++
+				if core.IsNilConst(alt) {
+					okAll = false
+					r.Violated("R09.2", key(n, "return nil"), pos(r, ret), "a route arm returns nil without calling a handler: the client gets an empty 200")
+				}
 			}
 		}
 		// a default arm: some return yields MethodNotAllowed (or another ErrorCode constant)
@@ -1523,4 +1526,16 @@ func rule098(r *core.Run) {
 		})
 	}
 	r.Check(scoped >= 8, "R09.8", key("s3bolt", "transactions are closure-scoped"), "", sprintf("%d View/Update transactions, no Begin", scoped), "fewer closure-scoped bolt transactions than the backend's operations need: the anchors moved")
+}
+
+// altValues flattens the phis of a merged value into its alternatives.
+func altValues(v ssa.Value, d int) []ssa.Value {
+	if ph, ok := v.(*ssa.Phi); ok && d < 4 {
+		var out []ssa.Value
+		for _, e := range ph.Edges {
+			out = append(out, altValues(e, d+1)...)
+		}
+		return out
+	}
+	return []ssa.Value{v}
 }
